@@ -295,15 +295,22 @@ def seed_identity(ctx, dim, via):
     ctx.ensure("same-value=>same-result", ctx.eq(res[0], res[1]))
 
 
-@contract(P, "SRF.__call__/in-place-model-change-equals-fresh", params=[c for c in CHG if c["what"] != "nugget"],
-          functions=["field/srf.py:SRF.__call__", "field/generator.py:RandMeth.update", "covmodel/tools.py:compare"],
+@contract(P, "SRF.__call__/in-place-model-change-equals-fresh",
+          params=[dict(c, next="pos") for c in CHG if c["what"] != "nugget"] +
+                 [dict(c, next=nx) for c in CHG if c["what"] in ("anis", "angles", "len_scale") and c["tol"] == "beyond"
+                  and c["kind"] == "generic" for nx in ("reuse", "reuse-structured")],
+          functions=["field/srf.py:SRF.__call__", "field/generator.py:RandMeth.update", "covmodel/tools.py:compare",
+                     "field/base.py:Field.pre_pos"],
           nsamples=1, search=20)
-def srf_inplace(ctx, dim, what, tol, kind):
+def srf_inplace(ctx, dim, what, tol, kind, next):
+    """next=reuse: the second call reuses the stored positions (`srf()` without `pos`): they are transformed
+    with the model as it is NOW (no stale isometrised positions)"""
     mod = sym_model(ctx, dim, nugget=False, generic=(kind == "generic"))
     s = ctx.integer("seed", lo=1, hi=1000)
     srf = _q(gs.SRF, mod, seed=s, mode_no=2)
     x = [[0.25, 1.5]] * dim
-    srf(x)
+    mesh = "structured" if next == "reuse-structured" else "unstructured"
+    srf(x, mesh_type=mesh)
     mod2, v = _changed_model(ctx, mod, what, dim, tol)
     # the documented in-place change of the field's own model
     if what == "anis":
@@ -312,9 +319,9 @@ def srf_inplace(ctx, dim, what, tol, kind):
         srf.model.angles = [v] + list(mod.angles[1:])
     else:
         setattr(srf.model, what, v)
-    got = srf(x)
-    fresh = _q(gs.SRF, mod2, seed=s, mode_no=2)(x)
-    ctx.ensure("field=fresh-generator-field", ctx.eq(got, fresh))
+    got = srf(x) if next == "pos" else srf(mesh_type=mesh)
+    fresh = _q(gs.SRF, mod2, seed=s, mode_no=2)(x, mesh_type=mesh)
+    ctx.ensure("field=fresh-generator-field", ctx.And(ctx.shape_eq(got, np.shape(fresh)), ctx.eq(got, fresh)))
 
 
 # ---------------------------------------------------------------------------------------
